@@ -172,6 +172,23 @@ func stripAnnotations(s string) (string, bool) {
 	return sb.String(), depth == 0
 }
 
+// rawObserve reads the outcome without calling any observer of the library (no ToString, no
+// GetDetailText): result in canonical form, matched/rest, counter, generator, variables.
+func rawObserve(vm *ds.Context, o *Outcome) {
+	if o.Panic != "" {
+		return
+	}
+	if o.Err == "" && vm.Ret != nil && o.Kind != "parse" {
+		o.HasRet = true
+		o.Ret = Canon(vm.Ret)
+		o.Matched = vm.Matched
+		o.Rest = vm.RestInput
+	}
+	o.NumOp = int64(vm.NumOpCount)
+	o.Seed = seedHex(vm)
+	o.Attrs = CanonMap(vm.Attrs)
+}
+
 func c14Observe(sc *C14Scenario, m *Meter, res *RunResult, dg *Digest) {
 	run := func(withBursts bool) ([]*Outcome, string) {
 		ResetGlobals(sc.GlobalSeed)
@@ -211,6 +228,7 @@ func c14Observe(sc *C14Scenario, m *Meter, res *RunResult, dg *Digest) {
 			if c.Kind == "run" || c.Kind == "parse" {
 				parsedOK = !p && err == nil
 			}
+			rawObserve(vm, o)
 			if withBursts && i < len(sc.Bursts) {
 				for k := 0; k < sc.Bursts[i][0]; k++ {
 					seen1, p1 := ObservationBurst(vm)
@@ -222,8 +240,8 @@ func c14Observe(sc *C14Scenario, m *Meter, res *RunResult, dg *Digest) {
 				}
 			}
 			outs = append(outs, o)
-			// what a host reads at the very end of the command in both twins
-			Observe(vm, o, true)
+			// the outcome is captured with the harness's own walker only (no library observer runs in
+			// the unobserved twin at all); in the observed twin it was captured before the bursts
 			res.Evals++
 		}
 		return outs, ""
